@@ -2255,7 +2255,12 @@ fn foreach_next(xs: &mut State) -> Xresult {
         .range.start;
     if idx == 0 {
         let items = xs.pop_data()?;
-        xs.loops.last_mut().unwrap().items = items;
+        let l = xs.loops.last_mut().unwrap();
+        let old = l.clone();
+        l.items = items;
+        if xs.is_recording() {
+            xs.add_reverse_step(ReverseStep::LoopNextBack(old));
+        }
     }
     OK
 }
